@@ -352,7 +352,7 @@ def main():
         text = HEADER + Sym(fns["_serialize_to_list"], consts).run()
     except (Refuse, SyntaxError, OSError) as r:
         refused = str(r)
-        text = HEADER + ("(* REFUSED by the translator: " + refused[:120].replace("*", "x").replace("(", "[").replace(")", "]") +
+        text = HEADER + ("(* REFUSED by the translator: " + refused[:120].replace("*", "x").replace("(", "[").replace(")", "]").replace('"', "'") +
                          " - the hand model stands in (the check reports the refusal) *)\n"
                          "Definition serialize (compact : bool) (p : point) : list cell := ser compact p.\n")
     try:
